@@ -1355,6 +1355,34 @@ theorem visD_is_complete_then_validate (exro : Bool) (s : RS) (v : V) (hc : comp
     rw [← h1, visD_value_compFree exro s hc v v' hx]
     rfl
 
+/-- **allOf with defaults, composition-free members**: the sequential visit of the members IS the chain
+"complete by the member, check the member, hand the completed value to the next member" — which is why a default
+injected by an earlier member is seen by a later one (and can be rejected by it, `default_decides_witnesses` (3)),
+while a later member's default is never seen by an earlier one -/
+theorem allOf_is_chain (exro : Bool) (l : List RS) (hl : ∀ m ∈ l, compFree m = true ∧ m.wf = true) :
+    ∀ v, v.wf = true → visAll true exro l v = chainComplete exro l v := by
+  induction l with
+  | nil => intro v _; rfl
+  | cons m r ih =>
+    intro v hv
+    obtain ⟨hc, hs⟩ := hl m (by simp)
+    unfold visAll chainComplete
+    rw [visD_is_complete_then_validate exro m v hc hs hv]
+    cases satReqB exro m (complete exro m v) with
+    | false => rfl
+    | true =>
+      simp only [if_true, Option.bind_some]
+      exact ih (fun x hx => hl x (by simp [hx])) _ (complete_wf exro m hs v hv)
+
+example :
+    let pa := exIntD false false (some (.int 1))
+    let m1 := RS.leaf none false false false 0 none [(['a'], pa)] [] none none
+    let m2 := RS.leaf none false false false 0 none [] [['a']] none none
+    let m3 := RS.leaf none false false false 0 none [] [] (some false) none
+    (match chainComplete false [m1, m2] (.obj []) with | some v => V.beq v (.obj [(['a'], .int 1)]) | none => false) = true ∧
+    (chainComplete false [m2, m1] (.obj [])).isSome = false ∧
+    (chainComplete false [m1, m3] (.obj [])).isSome = false ∧ (chainComplete false [m3, m1] (.obj [])).isSome = true := by decide
+
 /-- harmless defaults: completing the value does not change whether it satisfies the schema -/
 theorem harmless_completion (exro : Bool) (s : RS) (v : V) (hc : compFree s = true) (hs : s.wf = true)
     (hv : v.wf = true) (hh : dfltsHarmless exro s = true) :
